@@ -1,12 +1,231 @@
-//! C15 - (to be written)
+//! C15 - encrypted integers: bootstrap, word operations and bit surgery match u32 (engines E1 + E2).
 
-use pvc_engine::Run;
-use serde_json::Value;
+use crate::uctx::*;
+use poulpy_bin_fhe::bdd_arithmetic::{
+    Add, And, FheUint, FheUintPrepare, FheUintPrepared, Identity, Or, Sll, Slt, Sltu, Sra, Srl, Sub, Xor,
+};
+use poulpy_core::layouts::{GLWEToRef, LWEInfos};
+use poulpy_core::{EncryptionLayout, ScratchTakeCore};
+use poulpy_hal::api::{ScratchOwnedAlloc, ScratchOwnedBorrow};
+use poulpy_hal::layouts::{DeviceBuf, Module, Scratch, ScratchOwned};
+use poulpy_hal::source::Source;
+use pvc_common::{Bk, CoreAll, FFT64Ref, HalAll};
+use pvc_engine::rng::{Rng, garbage};
+use pvc_engine::{Rec, Run, fnv, guarded};
+use serde::{Deserialize, Serialize};
+use serde_json::{Value, json};
+
+// ---------------------------------------------------------------------------------------------
+// R10: plain word semantics
+// ---------------------------------------------------------------------------------------------
+
+#[derive(Clone, Copy, Debug, PartialEq, Eq, Hash, Serialize, Deserialize)]
+pub enum WOp {
+    Add,
+    Sub,
+    Sll,
+    Srl,
+    Sra,
+    Slt,
+    Sltu,
+    And,
+    Or,
+    Xor,
+    Identity,
+}
+
+pub const ALL_WOPS: [WOp; 11] =
+    [WOp::Add, WOp::Sub, WOp::Sll, WOp::Srl, WOp::Sra, WOp::Slt, WOp::Sltu, WOp::And, WOp::Or, WOp::Xor, WOp::Identity];
+
+impl WOp {
+    /// plain Rust semantics on u32 (RISC-V word operations): wrapping add/sub, shift amount = low 5 bits of b,
+    /// sra arithmetic, slt signed, sltu unsigned, identity = a
+    pub fn plain(self, a: u32, b: u32) -> u32 {
+        match self {
+            WOp::Add => a.wrapping_add(b),
+            WOp::Sub => a.wrapping_sub(b),
+            WOp::Sll => a << (b & 31),
+            WOp::Srl => a >> (b & 31),
+            WOp::Sra => ((a as i32) >> (b & 31)) as u32,
+            WOp::Slt => ((a as i32) < (b as i32)) as u32,
+            WOp::Sltu => (a < b) as u32,
+            WOp::And => a & b,
+            WOp::Or => a | b,
+            WOp::Xor => a ^ b,
+            WOp::Identity => a,
+        }
+    }
+    pub fn name(self) -> &'static str {
+        match self {
+            WOp::Add => "add",
+            WOp::Sub => "sub",
+            WOp::Sll => "sll",
+            WOp::Srl => "srl",
+            WOp::Sra => "sra",
+            WOp::Slt => "slt",
+            WOp::Sltu => "sltu",
+            WOp::And => "and",
+            WOp::Or => "or",
+            WOp::Xor => "xor",
+            WOp::Identity => "identity",
+        }
+    }
+}
+
+// ---------------------------------------------------------------------------------------------
+// pipeline pieces
+// ---------------------------------------------------------------------------------------------
+
+pub type Prep<B, T> = FheUintPrepared<DeviceBuf<B>, T, B>;
+
+pub fn garbage_scratch<B: Bk>(bytes: usize, which: usize) -> ScratchOwned<B> {
+    let mut s = B::scratch(bytes);
+    garbage(&mut B::borrow(&mut s).data, which);
+    s
+}
+
+/// fresh packed encryption of `w` (encryption randomness from `seed`)
+pub fn encrypt_word<B: Bk, T: Word>(ctx: &Ctx<B>, w: T, seed: u64) -> FheUint<Vec<u8>, T>
+where
+    Module<B>: HalAll<B> + CoreAll<B> + UintAll<B>,
+    Scratch<B>: ScratchTakeCore<B>,
+    ScratchOwned<B>: ScratchOwnedAlloc<B> + ScratchOwnedBorrow<B>,
+{
+    let infos = ctx.p.glwe_infos();
+    let enc = EncryptionLayout::new_from_default_sigma(infos).expect("glwe encryption layout");
+    let mut r = Rng::new(seed, 0xE1);
+    let mut xe = Source::new(r.seed32());
+    let mut xa = Source::new(r.seed32());
+    let mut ct: FheUint<Vec<u8>, T> = FheUint::alloc_from_infos(&infos);
+    garbage(ct_bytes_mut(&mut ct), 0);
+    let mut s = garbage_scratch::<B>(ct.encrypt_sk_tmp_bytes(&ctx.module) + 64, 0);
+    ct.encrypt_sk(&ctx.module, w, &ctx.sk_prep, &enc, &mut xe, &mut xa, B::borrow(&mut s));
+    ct
+}
+
+/// raw bytes of a packed ciphertext (to pre-fill result buffers with garbage)
+pub fn ct_bytes_mut<T: Word>(ct: &mut FheUint<Vec<u8>, T>) -> &mut [u8] {
+    use poulpy_core::layouts::GLWEToMut;
+    use poulpy_hal::layouts::ZnxViewMut;
+    let mut g = ct.to_mut();
+    let raw: &mut [i64] = g.data_mut().raw_mut();
+    let (p, l) = (raw.as_mut_ptr(), raw.len());
+    // SAFETY: plain reinterpretation of the ciphertext's own i64 buffer as bytes; lifetime tied to `ct`
+    unsafe { std::slice::from_raw_parts_mut(p as *mut u8, l * 8) }
+}
+
+/// exact phase read-out of a packed word
+pub fn read_ct<B: Bk, T: Word, G: GLWEToRef>(ctx: &Ctx<B>, ct: &G) -> WordRead {
+    let g = ct.to_ref();
+    let (ph, bits) = glwe_phase(g.data(), g.base2k().as_usize(), &ctx.sk_clear);
+    read_word(&ph, bits, T::bits())
+}
 
 pub fn run(_run: &mut Run) {
-    panic!("C15: not implemented yet");
+    probe::<FFT64Ref>(_run);
+}
+
+fn probe<B: Bk>(run: &mut Run)
+where
+    Module<B>: HalAll<B> + CoreAll<B> + UintAll<B>,
+    Scratch<B>: ScratchTakeCore<B>,
+    ScratchOwned<B>: ScratchOwnedAlloc<B> + ScratchOwnedBorrow<B>,
+{
+    for (n, n_lwe) in [(32u32, 28u32), (64, 63), (64, 56), (128, 77), (256, 77)] {
+        let mut p = Params::suite(n);
+        p.n_lwe = n_lwe;
+        let ctx = match guarded(|| Ctx::<B>::new(p)) {
+            Ok(c) => c,
+            Err(e) => {
+                eprintln!("N={n} n_lwe={n_lwe}: keygen panics: {e}");
+                continue;
+            }
+        };
+        eprintln!("N={n} keygen {:.2}s", ctx.keygen_s);
+        let ggsw = ctx.p.ggsw_infos();
+        let glwe = ctx.p.glwe_infos();
+        let a = 0xDEADBEEFu32;
+        let b = 0x12345678u32;
+        let t = std::time::Instant::now();
+        let ca = encrypt_word::<B, u32>(&ctx, a, 1);
+        let cb = encrypt_word::<B, u32>(&ctx, b, 2);
+        let ra = read_ct::<B, u32, _>(&ctx, &ca);
+        eprintln!("  enc {:.4}s read {:#x} rel {:.3} stray {}", t.elapsed().as_secs_f64(), ra.value, ra.max_rel, ra.stray.len());
+        let t = std::time::Instant::now();
+        let mut pa: Prep<B, u32> = FheUintPrepared::alloc_from_infos(&ctx.module, &ggsw);
+        let mut pb: Prep<B, u32> = FheUintPrepared::alloc_from_infos(&ctx.module, &ggsw);
+        let bytes = ctx.module.fhe_uint_prepare_tmp_bytes(ctx.p.block_size as usize, 1, &pa, &ca, &ctx.key);
+        let mut s = garbage_scratch::<B>(bytes + 64, 0);
+        let r = guarded(|| {
+            pa.prepare(&ctx.module, &ca, &ctx.key, B::borrow(&mut s));
+            pb.prepare(&ctx.module, &cb, &ctx.key, B::borrow(&mut s));
+        });
+        eprintln!("  prepare x2 {:.4}s {:?}", t.elapsed().as_secs_f64(), r);
+        if r.is_err() {
+            continue;
+        }
+        for op in ALL_WOPS {
+            let t = std::time::Instant::now();
+            let mut res: FheUint<Vec<u8>, u32> = FheUint::alloc_from_infos(&glwe);
+            let bytes = res.add_tmp_bytes(&ctx.module, &glwe, &ggsw, &ctx.key);
+            let mut s = garbage_scratch::<B>(bytes + 64, 0);
+            let r = guarded(|| apply_op::<B>(&ctx, op, &mut res, &pa, &pb, 1, B::borrow(&mut s)));
+            let rd = read_ct::<B, u32, _>(&ctx, &res);
+            eprintln!(
+                "  {:<8} {:.4}s {:?} got {:#x} want {:#x} rel {:.3} stray {}",
+                op.name(),
+                t.elapsed().as_secs_f64(),
+                r,
+                rd.value,
+                op.plain(a, b),
+                rd.max_rel,
+                rd.stray.len()
+            );
+        }
+    }
+    let _ = run;
+}
+
+/// the real call of one word operation (threads = 1 -> single-thread entry point, else the _multi_thread one)
+pub fn apply_op<B: Bk>(
+    ctx: &Ctx<B>,
+    op: WOp,
+    res: &mut FheUint<Vec<u8>, u32>,
+    a: &Prep<B, u32>,
+    b: &Prep<B, u32>,
+    threads: usize,
+    scratch: &mut Scratch<B>,
+) where
+    Module<B>: HalAll<B> + CoreAll<B> + UintAll<B>,
+    Scratch<B>: ScratchTakeCore<B>,
+    ScratchOwned<B>: ScratchOwnedAlloc<B> + ScratchOwnedBorrow<B>,
+{
+    let m = &ctx.module;
+    let k = &ctx.key;
+    macro_rules! two {
+        ($st:ident, $mt:ident) => {
+            if threads <= 1 { res.$st(m, a, b, k, scratch) } else { res.$mt(threads, m, a, b, k, scratch) }
+        };
+    }
+    match op {
+        WOp::Add => two!(add, add_multi_thread),
+        WOp::Sub => two!(sub, sub_multi_thread),
+        WOp::Sll => two!(sll, sll_multi_thread),
+        WOp::Srl => two!(srl, srl_multi_thread),
+        WOp::Sra => two!(sra, sra_multi_thread),
+        WOp::Slt => two!(slt, slt_multi_thread),
+        WOp::Sltu => two!(sltu, sltu_multi_thread),
+        WOp::And => two!(and, and_multi_thread),
+        WOp::Or => two!(or, or_multi_thread),
+        WOp::Xor => two!(xor, xor_multi_thread),
+        WOp::Identity => {
+            if threads <= 1 { res.identity(m, a, k, scratch) } else { res.identity_multi_thread(threads, m, a, k, scratch) }
+        }
+    }
 }
 
 pub fn replay(_run: &mut Run, _d: &Value) {
+    let _ = (fnv(b""), json!({}));
+    let _: Option<Rec> = None;
     panic!("C15: not implemented yet");
 }
